@@ -2,7 +2,11 @@ module verifharness
 
 go 1.18
 
-require github.com/koykov/dyntpl v0.0.0
+require (
+	github.com/koykov/dyntpl v0.0.0
+	github.com/koykov/inspector v1.4.6
+	github.com/koykov/x2bytes v1.0.2
+)
 
 require (
 	github.com/koykov/bytealg v1.0.4 // indirect
@@ -11,8 +15,6 @@ require (
 	github.com/koykov/byteseq v1.0.1 // indirect
 	github.com/koykov/clock v1.1.4 // indirect
 	github.com/koykov/entry v1.0.2 // indirect
-	github.com/koykov/inspector v1.4.6 // indirect
-	github.com/koykov/x2bytes v1.0.2 // indirect
 	golang.org/x/sys v0.10.0 // indirect
 	golang.org/x/tools v0.11.1 // indirect
 )
